@@ -76,17 +76,16 @@ inline bool it_is_single_pass (int k) { return k == IT_STREAM || k == IT_MV_STRE
 
 struct Op
 {
-  short kind;
-  short p;      // position / first / direction
-  short n;      // count / last / length / new size / reserve argument
-  short i;      // aliased element index, or -1
-  short it;     // iterator kind / constructor "with allocator argument" flag
-  short f1, f2; // injected fault points (0 = none)
+  int kind;
+  int p;      // position / first / direction
+  int n;      // count / last / length / new size / reserve argument
+  int i;      // aliased element index, or -1
+  int it;     // iterator kind / constructor "with allocator argument" flag
+  int f1, f2; // injected fault points (0 = none)
 
   Op () : kind (0), p (0), n (0), i (-1), it (0), f1 (0), f2 (0) { }
   Op (int k, int p_, int n_, int i_, int it_)
-    : kind (static_cast<short> (k)), p (static_cast<short> (p_)), n (static_cast<short> (n_)),
-      i (static_cast<short> (i_)), it (static_cast<short> (it_)), f1 (0), f2 (0) { }
+    : kind (k), p (p_), n (n_), i (i_), it (it_), f1 (0), f2 (0) { }
 
   bool same_call (const Op& o) const
   {
@@ -106,9 +105,7 @@ inline bool op_from_token (const char *s, Op& o)
   int k, p, n, i, it, f1, f2;
   if (std::sscanf (s, "%d:%d:%d:%d:%d:%d:%d", &k, &p, &n, &i, &it, &f1, &f2) != 7)
     return false;
-  o.kind = static_cast<short> (k); o.p = static_cast<short> (p); o.n = static_cast<short> (n);
-  o.i = static_cast<short> (i); o.it = static_cast<short> (it);
-  o.f1 = static_cast<short> (f1); o.f2 = static_cast<short> (f2);
+  o.kind = k; o.p = p; o.n = n; o.i = i; o.it = it; o.f1 = f1; o.f2 = f2;
   return true;
 }
 
